@@ -511,6 +511,10 @@ class ClientSSM(SSM):
                 self.initialSequenceNumber = 0
                 self.set_state(SEGMENTED_CONFIRMATION, self.segmentTimeout * 4)
 
+                # send back a segment ack
+                segack = SegmentAckPDU( 0, 0, self.invokeID, self.initialSequenceNumber, self.actualWindowSize )
+                self.request(segack)
+
         # some kind of problem
         elif (apdu.apduType == ErrorPDU.pduType) or (apdu.apduType == RejectPDU.pduType) or (apdu.apduType == AbortPDU.pduType):
             if _debug: ClientSSM._debug("    - error/reject/abort")
